@@ -166,6 +166,7 @@ class Ctx:
         self.rule = ''
         self.assumptions: list[str] = []
         self.known = load_known(prop)
+        self._finding_status = all_finding_status()
 
     # ---- bookkeeping -------------------------------------------------------------------
     def quick(self) -> bool:
@@ -202,8 +203,20 @@ class Ctx:
         """The real code violates the property on `case` (a concrete failing input)."""
         self.failures.append({'what': what, 'case': case, 'detail': detail})
 
-    def known_hit(self, fid: str) -> None:
-        self.known_hits[fid] = self.known_hits.get(fid, 0) + 1
+    def known_hit(self, fid: str, case: Any = None, detail: Any = None) -> None:
+        """A failing input matched the rule of listed finding `fid`.  Only findings with status `known` in
+        the committed file suppress; a match with a `fixed` (or unlisted) finding is the defect coming back
+        and is reported as a violation."""
+        status = self._finding_status.get(fid)
+        if status is None:
+            for e in self.known:            # entries appended by a property module from notes/findings
+                if e.get('id') == fid:
+                    status = e.get('status')
+        if status == 'known':
+            self.known_hits[fid] = self.known_hits.get(fid, 0) + 1
+        else:
+            self.failure(f'input matching finding {fid} (status {status or "unlisted"}: not a known finding) fails again',
+                         case if case is not None else {'finding': fid}, detail)
 
     # ---- lean ---------------------------------------------------------------------------
     def lean_build(self, targets: list[str], timeout: int = 1500) -> bool:
@@ -267,9 +280,15 @@ def load_known(prop: str) -> list[dict]:
     return [e for e in data.get('findings', []) if e.get('property') == prop]
 
 
+def all_finding_status() -> dict:
+    if not KNOWN_FINDINGS.exists():
+        return {}
+    return {e['id']: e.get('status') for e in json.loads(KNOWN_FINDINGS.read_text()).get('findings', [])}
+
+
 def write_replay(ctx: Ctx, obj: dict) -> Path:
     REPLAYS.mkdir(exist_ok=True)
-    p = REPLAYS / f'{ctx.prop}-{ctx.tier}-{ctx.seed}-{int(time.time())}.json'
+    p = REPLAYS / f'{ctx.prop}-{ctx.tier}-{ctx.seed}-{int(time.time())}-{os.getpid()}.json'
     p.write_text(json.dumps(obj, indent=1, default=str))
     return p
 
